@@ -2,6 +2,7 @@ import RModel.Base.Bytes
 import RModel.Base.Utf8
 import RModel.Model.Edits
 import RModel.Model.Fs
+import RModel.Gen.ExecFlags
 /-
   L5 (tree level): `apply.rs::apply_plan` as a function on trees.
 
@@ -135,6 +136,17 @@ def rollback : Tree → List (Path × Path) → Option Errno → Tree × Option 
     | .ok t' => rollback t' rest err
     | .error e => rollback t rest (some (err.getD e))
 
+/-- the renames as they were executed on disk (`state.renames_executed`, repo commit 739fc80): the source of each
+    recorded pair re-based on the pairs recorded before it -/
+def executedFrom (acc : List (Path × Path)) : List (Path × Path) → List (Path × Path)
+  | [] => []
+  | pr :: rest => (rebase acc pr.1, pr.2) :: executedFrom (acc ++ [pr]) rest
+
+/-- what `rollback` walks (last first): the executed pairs in the code as it is, the recorded
+    (original-from, adjusted-to) pairs before 739fc80 — the flag is read from the source -/
+def rollbackList (perf : List (Path × Path)) : List (Path × Path) :=
+  if ExecFlags.rollbackRealPairs then executedFrom [] perf else perf
+
 def renamePhase : Tree → List (Path × Path) → List Ren → Result
   | t, perf, [] => { outcome := .ok, tree := t, performed := perf }
   | t, perf, r :: rs =>
@@ -143,7 +155,7 @@ def renamePhase : Tree → List (Path × Path) → List Ren → Result
     match renameTS t af (trailingSlash perf r.path) at' (trailingSlash perf r.newPath) with
     | .ok t' => renamePhase t' (perf ++ [(r.path, at')]) rs
     | .error e =>
-      match rollback t perf.reverse none with
+      match rollback t (rollbackList perf).reverse none with
       | (t', none) => { outcome := .renameFailed e, tree := t', performed := perf }
       | (t', some e') => { outcome := .rollbackFailed e', tree := t', performed := perf }
 
@@ -162,6 +174,11 @@ def readable (t : Tree) (p : Path) : Bool :=
 /-- STEP 4 can only fail by not being able to read an edited file at its computed location -/
 def backupPhase (r : Result) (files : List Path) : Result :=
   if files.all (fun f => readable r.tree (currentPath r.performed f)) then r
+  else if ExecFlags.historyEntryIsCommitPoint then
+    -- repo commit 6667a82: a failure after the rename phase rolls the renames back (contents stay edited)
+    match rollback r.tree (rollbackList r.performed).reverse none with
+    | (t', none) => { r with outcome := .backupFailed, tree := t' }
+    | (t', some e') => { r with outcome := .rollbackFailed e', tree := t' }
   else { r with outcome := .backupFailed }
 
 /-- pre-flight of `apply_plan`: no planned destination may exist on disk (`symlink_metadata(new_path).is_ok()`);
